@@ -37,11 +37,12 @@ Record ajob := mkAjob {
   aj_durs : list Z;            (* scripted duration of the k-th invocation (0 after the list) *)
   aj_pre : list aop;
   aj_post : list aop;
-  aj_kill : bool               (* cancel() was requested while the task was running its own step *)
+  aj_kill : bool;              (* cancel() was requested while the task was running its own step *)
+  aj_sync : list bool          (* the k-th CALL of the handle raises before any coroutine exists *)
 }.
 
 Inductive aevent :=
-| EStart (id : nat) (t : Z) (due_utc : Z)
+| EStart (id : nat) (t : Z) (due_utc : Z) (args : list Z) (kwargs : list (Z * Z))
 | EEnd (id : nat) (t : Z)
 | ECancelled (id : nat) (t : Z)       (* a suspended invocation was cancelled *)
 | ELogA (id : nat).
@@ -59,9 +60,9 @@ Definition a_set (s : aio) (reg : list nat) (jobs : list (nat * ajob)) (evs : li
   mkAio (a_tz s) (a_now s) reg jobs (a_next s) evs.
 Definition a_get (s : aio) (id : nat) : option ajob := lookup id (a_jobs s).
 Definition aj_set_phase (a : ajob) (p : phase) : ajob :=
-  mkAjob (aj_job a) p (aj_ref a) (aj_durs a) (aj_pre a) (aj_post a) (aj_kill a).
+  mkAjob (aj_job a) p (aj_ref a) (aj_durs a) (aj_pre a) (aj_post a) (aj_kill a) (aj_sync a).
 Definition aj_set_kill (a : ajob) : ajob :=
-  mkAjob (aj_job a) (aj_phase a) (aj_ref a) (aj_durs a) (aj_pre a) (aj_post a) true.
+  mkAjob (aj_job a) (aj_phase a) (aj_ref a) (aj_durs a) (aj_pre a) (aj_post a) true (aj_sync a).
 
 (* the instant at which sleep(job.timedelta(reference)) resumes: never before the due time,
    never before the reference *)
@@ -72,17 +73,17 @@ Definition dur_of (a : ajob) : Z := Z.max 0 (nth (Z.to_nat (j_attempts (aj_job a
 (* entering the while loop with reference [ref] *)
 Definition enter_loop (a : ajob) (j : job) (ref : Z) : ajob * bool :=
   if has_attempts j
-  then (mkAjob j (PSleep (wake_time ref (utc (job_datetime j)))) ref (aj_durs a) (aj_pre a) (aj_post a) (aj_kill a), true)
-  else (mkAjob j PDone ref (aj_durs a) (aj_pre a) (aj_post a) (aj_kill a), false).
+  then (mkAjob j (PSleep (wake_time ref (utc (job_datetime j)))) ref (aj_durs a) (aj_pre a) (aj_post a) (aj_kill a) (aj_sync a), true)
+  else (mkAjob j PDone ref (aj_durs a) (aj_pre a) (aj_post a) (aj_kill a) (aj_sync a), false).
 
 (* a scheduling call at the current instant; [running] = the task has already started *)
-Definition a_schedule (s : aio) (c : jobcfg) (durs : list Z) (pre post : list aop) : aio * res value :=
+Definition a_schedule (s : aio) (c : jobcfg) (durs : list Z) (pre post : list aop) (sync : list bool) : aio * res value :=
   let id := a_next s in
   let s1 := mkAio (a_tz s) (a_now s) (a_reg s) (a_jobs s) (S id) (a_events s) in
   match job_create c (a_tz s) (a_now s) with
   | Err e => (s1, Err e)
   | Ok j =>
-      let '(a, live) := enter_loop (mkAjob j PDone (a_now s) durs pre post false) j (a_now s) in
+      let '(a, live) := enter_loop (mkAjob j PDone (a_now s) durs pre post false sync) j (a_now s) in
       (mkAio (a_tz s) (a_now s) (if live then a_reg s ++ [id] else a_reg s) (a_jobs s ++ [(id, a)]) (S id) (a_events s),
        Ok (VJob id))
   end.
@@ -98,7 +99,7 @@ Definition a_cancel (s : aio) (id : nat) (self : option nat) : aio :=
                 else match aj_phase a with
                      | PSleep _ => aj_set_phase a PCancelled
                      | PRun _ => aj_set_phase a PCancelled
-                     | p => a
+                     | _ => a
                      end in
       let evs := if is_self then a_events s
                  else match aj_phase a with
@@ -146,7 +147,17 @@ Definition a_resume (s : aio) (id : nat) : aio :=
       | PSleep _ =>
           (* _exec: call the handle, run until its first suspension *)
           let j := aj_job a in
-          let s0 := a_set s (a_reg s) (a_jobs s) (EStart id now (utc (job_datetime j)) :: a_events s) in
+          if nth (Z.to_nat (j_attempts j)) (aj_sync a) false then
+            (* the call itself raises: contained, counted, logged; rescheduled at once *)
+            match job_calc (job_run j true) (dt_now now (a_tz s)) with
+            | Err _ => s
+            | Ok j2 =>
+                let '(a2, live) := enter_loop a j2 now in
+                a_set s (if live then a_reg s else remove_id id (a_reg s)) (update id a2 (a_jobs s))
+                      (ELogA id :: a_events s)
+            end
+          else
+          let s0 := a_set s (a_reg s) (a_jobs s) (EStart id now (utc (job_datetime j)) (c_args (j_cfg j)) (c_kwargs (j_cfg j)) :: a_events s) in
           let '(s1, praised) := a_prog s0 (aj_pre a) id in
           match a_get s1 id with
           | None => s1
@@ -217,21 +228,30 @@ Fixpoint a_run (fuel : nat) (s : aio) (t : Z) : aio * bool :=
       end
   end.
 
+(* bound on the number of task resumptions of one run (a zero-interval unlimited job would spin
+   forever, in the model as in the real event loop) *)
+Definition RUN_FUEL : nat := Z.to_nat 50000.
+
 Inductive atop :=
-| TSchedule (c : jobcfg) (durs : list Z) (pre post : list aop)
-| TOnce (ot : oncetiming) (c : jobcfg) (durs : list Z) (pre post : list aop)
+| TSchedule (c : jobcfg) (durs : list Z) (pre post : list aop) (sync : list bool)
+| TOnce (ot : oncetiming) (c : jobcfg) (durs : list Z) (pre post : list aop) (sync : list bool)
 | TOp (o : aop)
 | TRun (t : Z).
 
 Definition a_clear (s : aio) : aio := mkAio (a_tz s) (a_now s) (a_reg s) (a_jobs s) (a_next s) [].
 
+(* after every operation the loop runs until nothing is due at the current instant *)
+Definition settle (sr : aio * res value) : aio * res value :=
+  let '(s', ok) := a_run RUN_FUEL (fst sr) (a_now (fst sr)) in
+  (s', if ok then snd sr else Err OtherError).
+
 Definition a_step (s : aio) (o : atop) : aio * res value :=
   let s := a_clear s in
   match o with
-  | TSchedule c durs pre post => a_schedule s c durs pre post
-  | TOnce ot c durs pre post => a_schedule s (once_cfg ot c) durs pre post
-  | TOp o => a_op s o None
-  | TRun t => let '(s', ok) := a_run 100000 s t in (s', if ok then Ok VNone else Err OtherError)
+  | TSchedule c durs pre post sync => settle (a_schedule s c durs pre post sync)
+  | TOnce ot c durs pre post sync => settle (a_schedule s (once_cfg ot c) durs pre post sync)
+  | TOp o => settle (a_op s o None)
+  | TRun t => let '(s', ok) := a_run RUN_FUEL s t in (s', if ok then Ok VNone else Err OtherError)
   end.
 
 Definition a_init (tz : option Z) (now : Z) : aio := mkAio tz now [] [] O [].
